@@ -173,8 +173,9 @@ Definition parse_header (line : bytes) : result (N * N * bytes) :=
       if bytes_eqb w0 [51] then
         match header_fields ws None None None with
         | Ok (Some v, Some n, Some g) =>
-            (* an empty G value is replaced by a fresh random id: not a round trip *)
-            match g with [] => Exc exc_value | _ => Ok (v, n, g) end
+            (* an empty G value is accepted; the reader then draws a fresh
+               random id, which the model writes as the empty id *)
+            Ok (v, n, g)
         | Ok _ => Exc exc_value
         | Exc k => Exc k
         | NotParseable => NotParseable
